@@ -70,6 +70,8 @@ struct Case {
     link_style: u64,
     /// the tool's stderr is /dev/full: every diagnostic write fails with ENOSPC
     stderr_full: bool,
+    /// RUST_LOG: 0 unset, 1 debug, 2 trace
+    rust_log: u64,
 }
 
 const NAME_STYLES: [&str; 3] = ["as-is", "two-dots", "blank-in-name"];
@@ -107,7 +109,8 @@ fn decode_case(ch: &mut Chooser, nsets: usize) -> Case {
     let name_style = ch.choose("name_style", 3);
     let link_style = ch.choose("link_style", 3);
     let stderr_full = ch.choose("stderr_is_dev_full", 2) == 1;
-    Case { input, spelling, output, pre, extra, longflags, entropy, dirperm, fault, name_style, link_style, stderr_full }
+    let rust_log = ch.choose("rust_log", 3);
+    Case { input, spelling, output, pre, extra, longflags, entropy, dirperm, fault, name_style, link_style, stderr_full, rust_log }
 }
 
 fn encode_case(c: &Case) -> Vec<u64> {
@@ -120,7 +123,7 @@ fn encode_case(c: &Case) -> Vec<u64> {
     } else {
         t.push(0);
     }
-    t.extend([c.name_style, c.link_style, u64::from(c.stderr_full)]);
+    t.extend([c.name_style, c.link_style, u64::from(c.stderr_full), c.rust_log]);
     t
 }
 
@@ -317,6 +320,7 @@ fn run_once(sets: &[InputSet], c: &Case, spelling: u64, expected: &Expected) -> 
         dirorder: vec![],
         faults: c.fault.iter().cloned().collect(),
         stderr_full: c.stderr_full,
+        rust_log: [None, Some("debug"), Some("trace")][c.rust_log as usize % 3],
     };
     let run = cli::run_zeep(&top, &cwd, &args, &plan, "r");
     let out_after = std::fs::read(&out_abs).ok();
@@ -495,7 +499,7 @@ fn case_json(sets: &[InputSet], c: &Case) -> Value {
         "input_set": sets[c.input].name, "stage": sets[c.input].stage, "start_file": sets[c.input].start,
         "files": sets[c.input].files.iter().map(|(n, b)| json!({"name": n, "bytes": b.len(), "hash": format!("{:016x}", simkernel::hash_bytes(b))})).collect::<Vec<_>>(),
         "spelling": SPELLINGS[c.spelling as usize], "output": OUTPUTS[c.output as usize], "preexisting_output": PRE[c.pre as usize],
-        "extra_entries": EXTRAS[c.extra as usize], "stderr": if c.stderr_full { "/dev/full" } else { "pipe" }, "long_flags": c.longflags, "start_file_name": styled_start(&sets[c.input].start, c.name_style), "name_style": NAME_STYLES[c.name_style as usize], "link_style": LINK_STYLES[c.link_style as usize],
+        "extra_entries": EXTRAS[c.extra as usize], "stderr": if c.stderr_full { "/dev/full" } else { "pipe" }, "RUST_LOG": ["(unset)", "debug", "trace"][c.rust_log as usize % 3], "long_flags": c.longflags, "start_file_name": styled_start(&sets[c.input].start, c.name_style), "name_style": NAME_STYLES[c.name_style as usize], "link_style": LINK_STYLES[c.link_style as usize],
         "entropy": format!("{:x}", c.entropy), "dirperm": c.dirperm,
         "fault": c.fault.as_ref().map(FaultSpec::describe),
     })
@@ -652,7 +656,7 @@ fn build_tapes(sets: &[InputSet], tier: &str, seed: u64) -> (Vec<Vec<u64>>, Valu
                         if !thorough && (input as u64 * 7 + spelling * 5 + output * 3 + pre + *extra) % 7 != 0 {
                             continue;
                         }
-                        let c = Case { input, spelling, output, pre, extra: *extra, longflags: (spelling + output) % 2 == 1, entropy: 0, dirperm: if *extra == 2 { 7 } else { 0 }, fault: None, name_style: ((input as u64 + spelling) % 3) * u64::from((output + pre) % 2 == 0), link_style: ((spelling + pre + *extra) % 3) * u64::from((input as u64 + output) % 2 == 1), stderr_full: (input as u64 + spelling + pre) % 5 == 0 };
+                        let c = Case { input, spelling, output, pre, extra: *extra, longflags: (spelling + output) % 2 == 1, entropy: 0, dirperm: if *extra == 2 { 7 } else { 0 }, fault: None, name_style: ((input as u64 + spelling) % 3) * u64::from((output + pre) % 2 == 0), link_style: ((spelling + pre + *extra) % 3) * u64::from((input as u64 + output) % 2 == 1), stderr_full: (input as u64 + spelling + pre) % 5 == 0, rust_log: (spelling + output + pre) % 3 };
                         tapes.push(encode_case(&c));
                         n_cfg += 1;
                     }
@@ -664,20 +668,20 @@ fn build_tapes(sets: &[InputSet], tier: &str, seed: u64) -> (Vec<Vec<u64>>, Valu
     let idx_of = |name: &str| sets.iter().position(|s| s.name == name);
     let mut scen = Vec::new();
     if let Some(i) = idx_of("tempconverter") {
-        scen.push(Case { input: i, spelling: 2, output: 0, pre: 2, extra: 0, longflags: false, entropy: 0, dirperm: 0, fault: None, name_style: 0, link_style: 0, stderr_full: false });
+        scen.push(Case { input: i, spelling: 2, output: 0, pre: 2, extra: 0, longflags: false, entropy: 0, dirperm: 0, fault: None, name_style: 0, link_style: 0, stderr_full: false, rust_log: 0 });
     }
     if let Some(i) = idx_of("chain") {
-        scen.push(Case { input: i, spelling: 1, output: 2, pre: 1, extra: 1, longflags: true, entropy: 0, dirperm: 3, fault: None, name_style: 1, link_style: 1, stderr_full: false });
+        scen.push(Case { input: i, spelling: 1, output: 2, pre: 1, extra: 1, longflags: true, entropy: 0, dirperm: 3, fault: None, name_style: 1, link_style: 1, stderr_full: false, rust_log: 1 });
     }
     if thorough {
         if let Some(i) = idx_of("hello") {
-            scen.push(Case { input: i, spelling: 4, output: 3, pre: 0, extra: 0, longflags: false, entropy: 0, dirperm: 0, fault: None, name_style: 0, link_style: 0, stderr_full: false });
+            scen.push(Case { input: i, spelling: 4, output: 3, pre: 0, extra: 0, longflags: false, entropy: 0, dirperm: 0, fault: None, name_style: 0, link_style: 0, stderr_full: false, rust_log: 0 });
         }
         if let Some(i) = idx_of("malformed-sibling") {
-            scen.push(Case { input: i, spelling: 5, output: 1, pre: 2, extra: 0, longflags: false, entropy: 0, dirperm: 0, fault: None, name_style: 0, link_style: 0, stderr_full: false });
+            scen.push(Case { input: i, spelling: 5, output: 1, pre: 2, extra: 0, longflags: false, entropy: 0, dirperm: 0, fault: None, name_style: 0, link_style: 0, stderr_full: false, rust_log: 0 });
         }
         if let Some(i) = idx_of("orders") {
-            scen.push(Case { input: i, spelling: 1, output: 0, pre: 2, extra: 3, longflags: false, entropy: 0, dirperm: 5, fault: None, name_style: 2, link_style: 2, stderr_full: true });
+            scen.push(Case { input: i, spelling: 1, output: 0, pre: 2, extra: 3, longflags: false, entropy: 0, dirperm: 5, fault: None, name_style: 2, link_style: 2, stderr_full: true, rust_log: 2 });
         }
     }
     let mut enumerated = Vec::new();
